@@ -70,7 +70,31 @@ def build_matrix(pe, fam, shape, key, kind='obs', symmetric=False, base=None):
         M[0, m - 1] = float(vals[0, m - 1])
         if n > 1:
             M[n - 1, 0] = float(vals[n - 1, 0]) if not symmetric else M[0, m - 1]
+    if kind == 'mixed00' and n * m > 1:            # the plain number sits at [0, 0] (and, for n > 2, at [1, 2] / [2, 1])
+        M[0, 0] = float(vals[0, 0])
+        if n > 2 and m > 2:
+            M[1, 2] = float(vals[1, 2])
+            M[2, 1] = float(vals[2, 1]) if not symmetric else M[1, 2]
     return M
+
+
+def complexify(pe, M, how, key):
+    """variants of a CObs matrix whose [0, 0] entry is not a CObs"""
+    M = M.copy()
+    if how == 'num00':
+        M[0, 0] = 1.75
+    elif how == 'cnum00':
+        M[0, 0] = 1.5 + 0.25j
+    elif how == 'real00':
+        M[0, 0] = M[0, 0].real
+    elif how == 'numlast':
+        M[-1, -1] = 2.25
+    return M
+
+
+def fortran(M):
+    """the same matrix as a non-contiguous view (as produced by .T or slicing)"""
+    return np.ascontiguousarray(M.T).T
 
 
 def refpair(x, pe):
@@ -107,6 +131,34 @@ def mclose(A, B, pe, tol=1e-8):
     return None
 
 
+def cofactor_det(G):
+    n = G.shape[0]
+    if n == 1:
+        return G[0, 0]
+    if n == 2:
+        return G[0, 0] * G[1, 1] - G[0, 1] * G[1, 0]
+    e = None
+    for p in itertools.permutations(range(n)):
+        sgn = (-1) ** sum(1 for a in range(n) for b in range(a + 1, n) if p[a] > p[b])
+        term = sgn * 1.0
+        for i in range(n):
+            term = term * G[i, p[i]]
+        e = term if e is None else e + term
+    return e
+
+
+def nonsymmetric(pe, fam, n, key, kind):
+    """a non-symmetric matrix with real, well separated eigenvalues: diag(1, 2.2, 3.4, ..) + 0.45 above, 0.06 below the diagonal"""
+    M = np.empty((n, n), dtype=object)
+    for i in range(n):
+        for j in range(n):
+            v = 1.0 + 1.2 * i if i == j else (0.45 + 0.05 * j if j > i else 0.06 + 0.01 * i)
+            M[i, j] = entry(pe, fam, i, j, (key, 'ns'), v)
+    if kind.startswith('mixed') and n > 1:
+        M[0, n - 1] = 0.45 + 0.05 * (n - 1)
+    return M
+
+
 def eye_like(n):
     return np.eye(n)
 
@@ -124,14 +176,18 @@ def build(tier, seed):
     sizes = (1, 2, 3) if tier == 'quick' else (1, 2, 3, 4)
     for fam in FAMILIES:
         for n in sizes:
-            for kind in ('obs', 'cobs', 'mixed'):
+            for kind in ('obs', 'cobs', 'mixed', 'mixed00'):
                 cases.append({'kind': 'square', 'fam': fam, 'n': n, 'ekind': kind})
+            if n > 1:
+                for kind in ('mixed', 'mixed00'):
+                    cases.append({'kind': 'square', 'fam': fam, 'n': n, 'ekind': kind, 'order': 'F'})
+                cases.append({'kind': 'cmixed', 'fam': fam, 'n': n})
         rect = [(2, 3), (3, 2)] + ([(2, 4), (4, 2), (3, 4)] if tier == 'thorough' else [])
         for shape in rect:
             for kind in ('obs', 'mixed'):
                 cases.append({'kind': 'rect', 'fam': fam, 'shape': list(shape), 'ekind': kind})
     for ik in ('contiguous', 'strided', 'shifted', 'irregular'):
-        for kind in ('obs', 'cobs'):
+        for kind in ('obs', 'cobs', 'real-complex'):
             cases.append({'kind': 'jack', 'idl': ik, 'ekind': kind})
     return cases
 
@@ -145,17 +201,27 @@ def run_case(case):
             run_square(pe, acc, case)
         elif case['kind'] == 'rect':
             run_rect(pe, acc, case)
+        elif case['kind'] == 'cmixed':
+            run_cmixed(pe, acc, case)
         else:
             run_jack(pe, acc, case)
     return acc
 
 
-def attempt(pe, acc, name, case, f, nontrivial=True):
+def fingerprint(mats):
+    return [[(id(x), type(x).__name__) for x in np.asarray(M, dtype=object).ravel()] for M in mats]
+
+
+def attempt(pe, acc, name, case, f, nontrivial=True, watch=()):
     sub = dict(case, op=name)
     if 'op' in case and case['op'] != name:
         return
+    before = fingerprint(watch)
     try:
         bad = f()
+        if not bad and fingerprint(watch) != before:
+            bad = 'the call replaced entries of the matrix passed in by the caller (%s)' % [
+                t for b, a in zip(before, fingerprint(watch)) for (i0, t0), (i1, t) in zip(b, a) if i0 != i1][:3]
     except engine.MachineryError:
         raise
     except Exception as e:
@@ -175,19 +241,26 @@ def run_square(pe, acc, case):
     H = build_matrix(pe, fam, (n, n), 'H', kind)
     R = build_matrix(pe, fam, (n, n), 'R', 'obs')
     S = build_matrix(pe, fam, (n, n), 'S', 'obs' if kind == 'cobs' else kind, symmetric=True)
+    if case.get('order') == 'F':
+        G, H, S = fortran(G), fortran(H), fortran(S)
     nt = n > 1 or fam != 'equal'
     I = eye_like(n)
-    attempt(pe, acc, 'matmul2', case, lambda: mclose(L.matmul(G, H), G @ H, pe), nt)
-    attempt(pe, acc, 'matmul3', case, lambda: mclose(L.matmul(G, H, G), G @ H @ G, pe), nt)
-    attempt(pe, acc, 'matmul4', case, lambda: mclose(L.matmul(G, H, G, H), (G @ H) @ (G @ H), pe), nt)
+    W = [G, H, R, S]
+    _attempt = attempt
+
+    def attempt_w(pe, acc, name, case, f, nontrivial=True):
+        return _attempt(pe, acc, name, case, f, nontrivial, watch=W)
+    attempt_w(pe, acc, 'matmul2', case, lambda: mclose(L.matmul(G, H), G @ H, pe), nt)
+    attempt_w(pe, acc, 'matmul3', case, lambda: mclose(L.matmul(G, H, G), G @ H @ G, pe), nt)
+    attempt_w(pe, acc, 'matmul4', case, lambda: mclose(L.matmul(G, H, G, H), (G @ H) @ (G @ H), pe), nt)
     if kind == 'cobs':
-        attempt(pe, acc, 'matmul-real-complex', case, lambda: mclose(L.matmul(R, G), R @ G, pe) or mclose(L.matmul(G, R), G @ R, pe), nt)
-    if kind != 'mixed':
-        attempt(pe, acc, 'inv', case, lambda: mclose(G @ L.inv(G), I, pe) or mclose(L.inv(G) @ G, I, pe), nt)
+        attempt_w(pe, acc, 'matmul-real-complex', case, lambda: mclose(L.matmul(R, G), R @ G, pe) or mclose(L.matmul(G, R), G @ R, pe), nt)
+    if not kind.startswith('mixed'):
+        attempt_w(pe, acc, 'inv', case, lambda: mclose(G @ L.inv(G), I, pe) or mclose(L.inv(G) @ G, I, pe), nt)
     else:
-        attempt(pe, acc, 'inv', case, lambda: mclose(G @ L.inv(G), I, pe), nt)
+        attempt_w(pe, acc, 'inv', case, lambda: mclose(G @ L.inv(G), I, pe), nt)
     if kind != 'cobs':
-        attempt(pe, acc, 'cholesky', case, lambda: (lambda C: mclose(C @ C.T, S, pe) or (None if all(float(C[i, j]) == 0 if not hasattr(C[i, j], 'value') else abs(C[i, j].value) < 1e-14 for i in range(n) for j in range(i + 1, n)) else 'factor not lower triangular'))(L.cholesky(S)), nt)
+        attempt_w(pe, acc, 'cholesky', case, lambda: (lambda C: mclose(C @ C.T, S, pe) or (None if all(float(C[i, j]) == 0 if not hasattr(C[i, j], 'value') else abs(C[i, j].value) < 1e-14 for i in range(n) for j in range(i + 1, n)) else 'factor not lower triangular'))(L.cholesky(S)), nt)
 
         def det_check():
             d = L.det(G)
@@ -206,7 +279,7 @@ def run_square(pe, acc, case):
                         term = term * G[i, p[i]]
                     e = term if e is None else e + term
             return oclose(d, e, pe)
-        attempt(pe, acc, 'det', case, det_check, nt)
+        attempt_w(pe, acc, 'det', case, det_check, nt)
 
         def eigh_check():
             w, v = L.eigh(S)
@@ -227,14 +300,64 @@ def run_square(pe, acc, case):
                 lam = (col @ S @ col) / (col @ col)
                 bad = bad or oclose(lam, w[k], pe)
             return bad
-        attempt(pe, acc, 'eigh', case, eigh_check, nt)
+        attempt_w(pe, acc, 'eigh', case, eigh_check, nt)
+
+        def eig_check():
+            # eigenvalues of a non-symmetric matrix (real spectrum): each one is a root of the characteristic
+            # polynomial as an identity between observables, and they sum to the trace
+            A = nonsymmetric(pe, fam, n, 'E', kind)
+            w = L.eig(A)
+            if len(w) != n:
+                return '%d eigenvalues for a %dx%d matrix' % (len(w), n, n)
+            lam_np = np.sort(np.linalg.eigvals(np.array([[x.value if hasattr(x, 'value') else x for x in row] for row in A], dtype=float)).real)
+            if not np.allclose(np.sort([x.value for x in w]), lam_np, rtol=1e-10):
+                return 'eigenvalues %s, numpy gives %s for the central values' % (sorted(x.value for x in w), list(lam_np))
+            tr = None
+            for i in range(n):
+                tr = A[i, i] if tr is None else tr + A[i, i]
+            ssum = w[0]
+            for x in w[1:]:
+                ssum = ssum + x
+            bad = oclose(ssum, tr, pe)
+            for x in w:
+                Am = A.copy()
+                for i in range(n):
+                    Am[i, i] = Am[i, i] - x
+                bad = bad or oclose(cofactor_det(Am), 0.0, pe, 1e-8, 1.0)
+            return bad
+        attempt_w(pe, acc, 'eig-nonsymmetric', case, eig_check, nt)
 
         def svd_check():
             u, s, vh = L.svd(G)
             return mclose(u @ np.diag(s) @ vh if n > 1 else u * s[0] * vh, G, pe) or mclose(u.T @ u, I, pe)
-        attempt(pe, acc, 'svd', case, svd_check, nt)
-        attempt(pe, acc, 'pinv', case, lambda: mclose(G @ L.pinv(G) @ G, G, pe), nt)
+        attempt_w(pe, acc, 'svd', case, svd_check, nt)
+        attempt_w(pe, acc, 'pinv', case, lambda: mclose(G @ L.pinv(G) @ G, G, pe), nt)
     acc.sample({'kind': 'square', 'family': fam, 'n': n, 'entries': kind, 'operations': 'matmul2-4 inv cholesky det eigh eig eigv svd pinv'})
+
+
+
+def run_cmixed(pe, acc, case):
+    """complex matrices whose [0, 0] (or last) entry is a plain real / complex number or a real observable"""
+    fam, n = case['fam'], case['n']
+    L = pe.linalg
+    G0 = build_matrix(pe, fam, (n, n), 'G', 'cobs')
+    H = build_matrix(pe, fam, (n, n), 'H', 'cobs')
+    R = build_matrix(pe, fam, (n, n), 'R', 'obs')
+    I = eye_like(n)
+    for how in ('num00', 'cnum00', 'real00', 'numlast'):
+        for order in ('C', 'F'):
+            G = complexify(pe, G0, how, 'G')
+            if order == 'F':
+                G = fortran(G)
+            c = dict(case, how=how, order=order)
+            if ('how' in case and case['how'] != how) or ('order' in case and case['order'] != order):
+                continue
+            W = [G, H, R]
+            attempt(pe, acc, 'matmul2', c, lambda: mclose(L.matmul(G, H), G @ H, pe) or mclose(L.matmul(H, G), H @ G, pe), True, watch=W)
+            attempt(pe, acc, 'matmul3', c, lambda: mclose(L.matmul(G, H, G), G @ H @ G, pe), True, watch=W)
+            attempt(pe, acc, 'matmul-real-complex', c, lambda: mclose(L.matmul(R, G), R @ G, pe) or mclose(L.matmul(G, R), G @ R, pe), True, watch=W)
+            attempt(pe, acc, 'inv', c, lambda: mclose(G @ L.inv(G), I, pe), True, watch=W)
+    acc.sample({'kind': 'cmixed', 'family': fam, 'n': n, 'variants': 'number / complex number / real Obs at [0,0], number at [-1,-1]; C and F order'})
 
 
 def run_rect(pe, acc, case):
@@ -269,7 +392,8 @@ def run_jack(pe, acc, case):
     for N in (20, 80):
         cfgs = idl_for(ik, N)
 
-        def mat(key, n=2):
+        def mat(key, n=2, ekind=None):
+            kind = ekind or case['ekind']
             M = np.empty((n, n), dtype=object)
             for i in range(n):
                 for j in range(n):
@@ -280,20 +404,47 @@ def run_jack(pe, acc, case):
                         o = pe.CObs(o, pe.Obs([y], ['A|r1'], idl=[alpha.idl_carrier(cfgs)]))
                     M[i, j] = o
             return M
-        A, B = mat('A'), mat('B')
-        exact = L.matmul(A, B)
-        for name, f in (('jack_matmul', lambda: L.jack_matmul(A, B)), ('einsum', lambda: L.einsum('ij,jk->ik', A, B)),
-                        ('jack_matmul3', lambda: L.jack_matmul(A, B, A))):
+        Nm = np.array([[1.0, 0.5], [-0.25, 2.0]])
+        if kind == 'real-complex':
+            A, B = mat('A', ekind='obs'), mat('B', ekind='cobs')
+            progs = [('jack_matmul:real-complex', lambda: L.jack_matmul(A, B), lambda: L.matmul(A, B)),
+                     ('jack_matmul:complex-real', lambda: L.jack_matmul(B, A), lambda: L.matmul(B, A)),
+                     ('jack_matmul3:real-complex-real', lambda: L.jack_matmul(A, B, A), lambda: L.matmul(A, B, A)),
+                     ('jack_matmul3:complex-number-real', lambda: L.jack_matmul(B, Nm, A), lambda: L.matmul(B, Nm, A)),
+                     ('einsum:real-complex', lambda: L.einsum('ij,jk->ik', A, B), lambda: L.matmul(A, B)),
+                     ('einsum:complex-real:implicit', lambda: L.einsum('ij,jk', B, A), lambda: L.matmul(B, A))]
+        else:
+            A, B = mat('A'), mat('B')
+            progs = [('jack_matmul', lambda: L.jack_matmul(A, B), lambda: L.matmul(A, B)),
+                     ('einsum', lambda: L.einsum('ij,jk->ik', A, B), lambda: L.matmul(A, B)),
+                     ('jack_matmul3', lambda: L.jack_matmul(A, B, A), lambda: L.matmul(A, B, A)),
+                     ('jack_matmul:number', lambda: L.jack_matmul(A, Nm), lambda: L.matmul(A, Nm)),
+                     ('einsum:implicit', lambda: L.einsum('ij,jk', A, B), lambda: L.matmul(A, B)),
+                     ('einsum:implicit-transposed', lambda: L.einsum('ba,ac', A, B), lambda: L.matmul(A, B)),
+                     ('einsum:implicit-kj', lambda: L.einsum('ij,kj', A, B), lambda: L.matmul(A, B.T)),
+                     ('einsum:number', lambda: L.einsum('ij,jk->ik', A, Nm), lambda: L.matmul(A, Nm)),
+                     ('einsum:trace', lambda: np.array([[L.einsum('ij,ji', A, B)]], dtype=object), lambda: (lambda P: np.array([[P[0, 0] + P[1, 1]]], dtype=object))(L.matmul(A, B)))]
+        for name, f, fe in progs:
             sub = dict(case, op=name, N=N)
-            ex = exact if name != 'jack_matmul3' else L.matmul(A, B, A)
+            if 'op' in case and case['op'] != name:
+                continue
+            ex = fe()
+            before = fingerprint([A, B])
             try:
                 J = f()
             except Exception as e:
                 acc.fail('%s:raised' % name, sub, '%s (%s chain of %d, %s) raised %s: %s' % (name, ik, N, kind, type(e).__name__, e))
                 continue
+            if fingerprint([A, B]) != before:
+                acc.fail('%s:mutates-argument' % name, sub, '%s replaced entries of its argument' % name)
+                continue
+            J = np.asarray(J, dtype=object)
+            if J.shape != ex.shape:
+                acc.fail(name, sub, '%s (%s chain of %d, %s entries): result shape %s, expected %s' % (name, ik, N, kind, J.shape, ex.shape))
+                continue
             bad = None
             for idx in np.ndindex(ex.shape):
-                parts = [(J[idx], ex[idx])] if kind == 'obs' else [(J[idx].real, ex[idx].real), (J[idx].imag, ex[idx].imag)]
+                parts = [(J[idx], ex[idx])] if isinstance(ex[idx], pe.Obs) else [(J[idx].real, ex[idx].real), (J[idx].imag, ex[idx].imag)]
                 for pn, (g, e) in zip(('real', 'imag'), parts):
                     if not isinstance(g, pe.Obs):
                         bad = 'entry %s is a %s' % (idx, type(g).__name__)
